@@ -307,6 +307,9 @@ theorem decode_encode : ∀ (ty : Ty) (v : Val), wf ty v = true → canon ty v =
   | .box sz t, v, h, hc, hl, rest => by
     simp only [wf] at h; simp only [canon] at hc; simp only [layoutOk] at hl
     simp [decodeP, Spec.encode, norm, run_bind, decode_encode t v h hc hl]
+  | .wrap t, v, h, hc, hl, rest => by
+    simp only [wf] at h; simp only [canon] at hc; simp only [layoutOk] at hl
+    simp [decodeP, Spec.encode, norm, run_bind, decode_encode t v h hc hl]
   | .duration, v, h, _hc, _hl, rest => by
     obtain ⟨s, n, rfl, hs, hn⟩ := wf_duration h
     have h8 : fromLe (leBytes 8 s) = s := fromLe_leBytes_of_lt (by rw [pow256]; exact hs)
